@@ -416,7 +416,10 @@ Qed.
 Lemma is_empty_pad2 l : is_empty (pad2 l) = is_empty l.
 Proof. destruct l as [|a [|b r]]; reflexivity. Qed.
 
-Lemma ob_new_all dims : ob_all (ob_new dims) = map mk_pos (pad2 (merge_axes dims)) /  ob_len (ob_new dims) = prod_sizes (merge_axes dims) /  ob_inner_offset (ob_new dims) = 0 /\ ob_outer_offset (ob_new dims) = 0.
+Lemma ob_new_all dims :
+  ob_all (ob_new dims) = map mk_pos (pad2 (merge_axes dims)) /\
+  ob_len (ob_new dims) = prod_sizes (merge_axes dims) /\
+  ob_inner_offset (ob_new dims) = 0 /\ ob_outer_offset (ob_new dims) = 0.
 Proof.
   unfold ob_new. pose proof (split2_pad2 (merge_axes dims)) as H.
   destruct (split2 (merge_axes dims)) as [[o a] b].
